@@ -104,7 +104,22 @@ def one_case(r, cls, kinds):
             except Exception:  # noqa
                 pass
     try:
-        fs.addfilter("f", conds, acts, mt)
+        if r.random() < 0.3:
+            # the definition as LISTS (read from JSON, say), and the caller's objects used for a second set afterwards: what was
+            # supplied is what both sets give back, and the caller's objects are as they were
+            import aliasing, copy
+            lc, la = aliasing.listify(conds), aliasing.listify(acts)
+            snap = copy.deepcopy((lc, la))
+            fs.addfilter("f", lc, la, mt)
+            if (lc, la) != snap:
+                probs.append("addfilter changed the caller's own definition objects: %r → %r" % (snap, (lc, la)))
+            other = FiltersSet("other")
+            other.addfilter("f", lc, la, mt)
+            got_o = readback(other, "f")
+            if got_o != want:
+                probs.append("the same definition objects used for a second set: supplied %r, the second set reads %r" % (want, got_o))
+        else:
+            fs.addfilter("f", conds, acts, mt)
         got = readback(fs, "f")
         if got != want:
             probs.append("direct read-back differs: supplied %r, read %r" % (want, got))
